@@ -203,6 +203,11 @@ class Runner:
             if a != b:
                 w.cut(a, b)
                 self.faults_applied += 1
+        elif kind == 'mute':        # one-way loss: what a sends to b is lost (b -> a still works)
+            a, b = self.inst(op[1]).idx, self.inst(op[2]).idx
+            if a != b:
+                w.cut_oneway(a, b)
+                self.faults_applied += 1
         elif kind == 'isolate':     # cut one instance from everybody
             a = self.inst(op[1]).idx
             for other in w.instances:
@@ -586,7 +591,7 @@ def op_st(draw, config, kinds, specs):
         return [kind, i]
     if kind == 'restart':
         return [kind, i, draw(st.sampled_from([0, 0, 1, 3, 8, 20]))]
-    if kind in ('cut', 'heal'):
+    if kind in ('cut', 'heal', 'mute'):
         j = draw(st.integers(0, n - 1))
         return [kind, i, j]
     if kind == 'heal_all':
